@@ -1001,6 +1001,60 @@ Theorem crash_safe_recovered (h : list hop) o k :
   Recoverable H (sfs s) (crash_fs H shuffle false false s o k) (sfs (run_op H shuffle false false s o)).
 Proof. intro s. apply op_safe. apply inv_runc. apply inv_init. Qed.
 
+(* ---------- nothing that stays is ever written in place ---------- *)
+(* create / truncate / write / chmod only ever target temporaries: the files a reader
+   looks at (oci-layout, index.json, blobs/) change by rename or unlink alone, so the
+   granularity of write(2) (torn or partial writes) cannot matter *)
+Definition in_place_free (m : mstep) : Prop :=
+  match m with
+  | Create p | OpenTrunc p | Write p _ | Chmod p => is_temp p = true
+  | _ => True
+  end.
+Definition all_ipf (ms : list mstep) : Prop := forall m, In m ms -> in_place_free m.
+
+Lemma all_ipf_nil : all_ipf [].
+Proof. intros m []. Qed.
+Lemma all_ipf_cons m ms : in_place_free m -> all_ipf ms -> all_ipf (m :: ms).
+Proof. intros Hm Hms x [<-|Hin]; [exact Hm|now apply Hms]. Qed.
+Lemma all_ipf_app a e : all_ipf a -> all_ipf e -> all_ipf (a ++ e).
+Proof. intros Ha He m Hin. apply in_app_or in Hin as [Hin|Hin]; [now apply Ha|now apply He]. Qed.
+Lemma all_ipf_mkdirs fs : all_ipf (mkdirs fs).
+Proof.
+  unfold mkdirs. intros m Hin. apply in_app_or in Hin.
+  destruct (dirs fs DAlg), (dirs fs DIngest); cbn in Hin;
+    destruct Hin as [Hin|Hin]; try contradiction; destruct Hin as [<-|[]]; exact I.
+Qed.
+Lemma all_ipf_writes t cont : is_temp t = true -> all_ipf (map (fun x => Write t (AChunk x)) cont).
+Proof. intros Ht m Hin. apply in_map_iff in Hin as (x & <- & _). exact Ht. Qed.
+Lemma all_ipf_idx c tags digs : all_ipf (idx_steps c tags digs).
+Proof.
+  cbv beta iota delta [index_steps].
+  repeat (apply all_ipf_cons; [cbn; auto|]). apply all_ipf_nil.
+Qed.
+
+Ltac ipf_solve :=
+  repeat match goal with
+  | |- all_ipf [] => apply all_ipf_nil
+  | |- all_ipf (index_steps _ _ _ _ _) => apply all_ipf_idx
+  | |- all_ipf (mkdirs _) => apply all_ipf_mkdirs
+  | |- all_ipf (map _ _) => apply all_ipf_writes; reflexivity
+  | |- all_ipf (_ ++ _) => apply all_ipf_app
+  | |- all_ipf (_ :: _) => apply all_ipf_cons
+  | |- in_place_free _ => cbn; auto
+  end.
+
+Theorem no_in_place_write s o : all_ipf (steps s o).
+Proof.
+  unfold op_steps. destruct o as [d cont man|d r|r|d|]; cbn [op_mem].
+  - destruct (exists_file (sfs s) (FBlob d)); [apply all_ipf_nil|].
+    destruct (H cont =? d); cbn [negb]; destruct man; ipf_solve.
+  - destruct (exists_file (sfs s) (FBlob d)); ipf_solve.
+  - destruct (tag_get r (stags s)); ipf_solve.
+  - destruct (existsb (fun e => snd e =? d) (stags s) || memN d (sdigs s));
+      destruct (exists_file (sfs s) (FBlob d)); ipf_solve.
+  - ipf_solve.
+Qed.
+
 End Crash.
 
 (* ---------- the code before the repair: index.json written in place ---------- *)
@@ -1081,4 +1135,16 @@ Theorem crash_safe_recovered_src :
       Recoverable H (sfs s) (crash_fs H shuffle src_inplace src_unlink_first s o k)
         (sfs (run_op H shuffle src_inplace src_unlink_first s o)).
 Proof. rewrite src_inplace_false, src_unlink_first_false. exact crash_safe_recovered. Qed.
+
+Theorem no_in_place_write_src :
+  forall (H : list N -> N) (shuffle : nat -> list entry -> list entry) (s : st) (o : op) (m : mstep),
+    In m (op_steps H shuffle src_inplace src_unlink_first s o) ->
+    match m with
+    | Create p | OpenTrunc p | Write p _ | Chmod p => is_temp p = true
+    | _ => True
+    end.
+Proof.
+  rewrite src_inplace_false, src_unlink_first_false.
+  intros H shuffle s o m Hin. exact (no_in_place_write H shuffle s o m Hin).
+Qed.
 
